@@ -1,6 +1,7 @@
 """C18 — regex virtual-machine programs match like the pattern."""
 import concurrent.futures
 import copy
+import gc
 import hashlib
 import json
 import os
@@ -24,7 +25,9 @@ RULE = (
     "interpreter of the documented instruction semantics, and the pattern is put as a "
     "@verification function into a synthetic meta-model that goes through the real "
     "main.execute(target=cpp); the emitted pattern.cpp/revm.cpp/common.cpp are compiled "
-    "with g++ -fsanitize=address,undefined and revm::Match is driven over stdin; all "
+    "with g++ -fsanitize=address,undefined and revm::Match is driven over stdin (the "
+    "program variant for 16-bit wchar_t is compiled too, for patterns where it differs, "
+    "and fed with UTF-16 code units); all "
     "verdicts are compared with re.fullmatch on strings without line breaks (members "
     "sampled from Python's parse tree of the pattern, one-edit neighbours, range "
     "boundaries +-1).  A case = one (pattern, string); it is non-trivial when the "
@@ -32,6 +35,7 @@ RULE = (
     "(pattern, string) pairs of non-trivial patterns"
 )
 
+WORKERS = 8
 NAMESPACE = "vfc18"
 NATIVE = env.VERIF / "native"
 CXX = shutil.which("g++")
@@ -92,6 +96,7 @@ class Case:
         self.strings: List[str] = []
         self.expected: List[bool] = []
         self.reference: List[bool] = []
+        self.reference16: Dict[int, bool] = {}
         self.nontrivial = False
         self.cpp_fit = True
 
@@ -222,12 +227,11 @@ def leg1(chk: harness.Check, case: Case, rng: Any, n_strings: int) -> bool:
             return False
 
     case.strings = wl.strings_for(case.pattern, rng, n_strings)
+    # where a UTF-16 engine cannot agree with a code point engine by construction
     surrogate_in_pattern = bool(_SURROGATE_RE.search(case.pattern)) or any(
         0xD800 <= ord(c) <= 0xDFFF for c in case.pattern
     )
-    open_ended = bool(case.feats & {"dot", "set-complement", "arbitrary-suffix"}) or (
-        "." in case.pattern or "[^" in case.pattern
-    )
+    open_ended = wl.covers_surrogates(case.pattern)
     kept_strings: List[str] = []
     re_timeouts = 0
     for text in case.strings:
@@ -256,6 +260,7 @@ def leg1(chk: harness.Check, case: Case, rng: Any, n_strings: int) -> bool:
             lone = any(0xD800 <= c <= 0xDFFF for c in codes)
             if not lone and not (astral and open_ended):
                 got16 = revm_ref.run(case.prog16, revm_ref.utf16_units(text))
+                case.reference16[len(kept_strings) - 1] = got16
                 chk.count("reference_vm_evaluations_utf16")
                 if got16 != expected:
                     kind = "accepts-nonmatching" if got16 else "rejects-matching"
@@ -448,7 +453,7 @@ def shared_objects(
 
 def build_binary(
     out_dir: pathlib.Path, n_patterns: int, work: pathlib.Path, shared: pathlib.Path,
-    wait_until: float,
+    wait_until: float, pattern_flags: Sequence[str] = (),
 ) -> Tuple[Optional[pathlib.Path], str, str]:
     """Return (binary, failing stage, compiler output)."""
     table_cpp = work / "table.cpp"
@@ -456,7 +461,10 @@ def build_binary(
     objects = []
     for source in (out_dir / "src" / "pattern.cpp", table_cpp):
         obj = work / (source.stem + ".o")
-        proc = _run(_compile_cmd(source, obj, out_dir), 900.0)
+        cmd = _compile_cmd(source, obj, out_dir)
+        if source.name == "pattern.cpp":
+            cmd[1:1] = list(pattern_flags)
+        proc = _run(cmd, 900.0)
         if proc is None:
             return None, source.name, "compiler timeout"
         if proc.returncode != 0:
@@ -578,92 +586,127 @@ def leg2(
             return
     chk.count("patterns_emitted_as_cpp", len(cases))
     try:
-        with Phase(chk, "build"):
-            binary, stage, err = build_binary(
-                res.output_dir, len(cases), work, shared, wait_until
-            )
-        if binary is None:
-            if stage == "pattern.cpp" and err != "compiler timeout":
-                chk.violation(
-                    "emit-cpp/pattern.cpp-does-not-compile",
-                    {"patterns": [c.pattern for c in cases][:50], "compiler": err[-1500:]},
-                )
-            elif stage in ("revm.cpp", "common.cpp") and err != "compiler timeout":
-                chk.violation(f"emit-cpp/{stage}-does-not-compile", {"compiler": err[-1500:]})
-            else:
-                chk.mark_inconclusive(f"C++ build failed at {stage}: {err[-300:]}")
-            return
-        chk.count("cpp_binaries_built")
-        lines: List[str] = []
-        index: List[Tuple[int, int]] = []
-        for ci, case in enumerate(cases):
-            # a spinning matcher costs a full step budget per string: keep those few
-            limit = 3 if case.eps_cycle is not None else len(case.strings)
-            for si, text in enumerate(case.strings[:limit]):
-                codes = ",".join(f"{ord(c):x}" for c in text) or "-"
-                lines.append(f"{ci} {codes}")
-                index.append((ci, si))
-        with Phase(chk, "drive"):
-            verdicts, logs = drive(binary, lines, work)
-        for log in logs:
-            chk.count("sanitizer_reports")
-            chk.violation("cpp-matcher/sanitizer/" + sanitizer_kind(log), {"log": log[:3000]})
-        for (ci, si), verdict in zip(index, verdicts):
-            case = cases[ci]
-            text = case.strings[si]
-            expected = case.expected[si]
-            if verdict is None:
-                chk.count("cpp_cases_unanswered")
-                continue
-            chk.count("cpp_matcher_evaluations")
-            if verdict in ("0", "1"):
-                got = verdict == "1"
-                if got != expected and got == case.reference[si]:
-                    # the program is wrong (already reported by the reference
-                    # interpreter as program/...); the matcher runs it faithfully
-                    chk.count("cpp_matcher_confirms_wrong_program")
-                elif got != expected or got != case.reference[si]:
-                    kind = "accepts-nonmatching" if got else "rejects-matching"
-                    chk.violation(
-                        f"cpp-matcher/{kind}",
-                        witness(case, re_fullmatch=expected, reference_vm=case.reference[si],
-                                cpp=got, **text_witness(text)),
-                    )
-            elif verdict == "L":
-                chk.count("cpp_step_budget_exceeded")
-                splits = sum(1 for op, _ in case.prog or [] if op == revm_ref.SPLIT)
-                if case.eps_cycle is None and splits > 8:
-                    # without a cycle the matcher terminates, possibly after a number
-                    # of steps exponential in the number of splits: not judged
-                    chk.count("cpp_step_budget_exceeded_not_judged_many_splits")
-                    continue
-                suffix = "epsilon-cycle" if case.eps_cycle is not None else "no-epsilon-cycle"
-                chk.violation(
-                    f"cpp-matcher/no-verdict-within-step-budget/{suffix}",
-                    witness(case, re_fullmatch=expected, epsilon_cycle=case.eps_cycle,
-                            **text_witness(text)),
-                )
-            elif verdict.startswith("X:"):
-                what = re.sub(r"\d+", "N", verdict[2:])[:80]
-                chk.violation(
-                    f"cpp-matcher/exception/{what}",
-                    witness(case, re_fullmatch=expected, **text_witness(text)),
-                )
-            elif verdict.startswith("DIED:"):
-                chk.count("cpp_process_died")
-                if verdict == "DIED:timeout":
-                    # wall-clock only: never a verdict
-                    chk.count("cpp_process_timeouts")
-                elif not logs:
-                    chk.violation(
-                        "cpp-matcher/process-died",
-                        witness(case, re_fullmatch=expected, how=verdict[5:],
-                                **text_witness(text)),
-                    )
-            else:
-                chk.harness_error(f"driver protocol: {verdict!r}")
+        _build_and_compare(chk, cases, res, work, shared, wait_until, utf16=False)
     finally:
         res.cleanup()
+
+    # The same programs as emitted for 16-bit wide characters (the branch under
+    # ``#if __WCHAR_MAX__ <= 0x10000``), for the patterns where it differs: compiled
+    # with that macro re-defined and fed with UTF-16 code units.
+    sub = [c for c in cases if c.prog16 is not None and c.prog16 != c.prog and c.reference16]
+    if not sub:
+        return
+    with Phase(chk, "generate_cpp"):
+        res16 = generate_cpp([c.pattern for c in sub])
+    if res16.exc is not None or res16.rc != 0:
+        res16.cleanup()
+        chk.harness_error("sub-batch for the UTF-16 variant failed to generate")
+        return
+    work16 = work / "utf16"
+    work16.mkdir(exist_ok=True)
+    try:
+        _build_and_compare(chk, sub, res16, work16, shared, wait_until, utf16=True)
+    finally:
+        res16.cleanup()
+
+
+def _build_and_compare(
+    chk: harness.Check, cases: List[Case], res: driver.RunResult, work: pathlib.Path,
+    shared: pathlib.Path, wait_until: float, utf16: bool,
+) -> None:
+    tag = "-utf16" if utf16 else ""
+    ctr = "_utf16" if utf16 else ""
+    with Phase(chk, "build"):
+        binary, stage, err = build_binary(
+            res.output_dir, len(cases), work, shared, wait_until,
+            ["-U__WCHAR_MAX__", "-D__WCHAR_MAX__=0xffff"] if utf16 else [],
+        )
+    if binary is None:
+        if stage == "pattern.cpp" and err != "compiler timeout":
+            chk.violation(
+                f"emit-cpp{tag}/pattern.cpp-does-not-compile",
+                {"patterns": [c.pattern for c in cases][:50], "compiler": err[-1500:]},
+            )
+        elif stage in ("revm.cpp", "common.cpp") and err != "compiler timeout":
+            chk.violation(f"emit-cpp/{stage}-does-not-compile", {"compiler": err[-1500:]})
+        else:
+            chk.mark_inconclusive(f"C++ build failed at {stage}: {err[-300:]}")
+        return
+    chk.count("cpp_binaries_built" + ctr)
+    lines: List[str] = []
+    index: List[Tuple[int, int]] = []
+    for ci, case in enumerate(cases):
+        # a spinning matcher costs a full step budget per string: keep those few
+        limit = 3 if case.eps_cycle is not None else len(case.strings)
+        for si, text in enumerate(case.strings[:limit]):
+            if utf16:
+                if si not in case.reference16:
+                    continue  # not comparable between UTF-16 and code points
+                units = revm_ref.utf16_units(text)
+            else:
+                units = [ord(c) for c in text]
+            lines.append(f"{ci} " + (",".join(f"{u:x}" for u in units) or "-"))
+            index.append((ci, si))
+    with Phase(chk, "drive"):
+        verdicts, logs = drive(binary, lines, work)
+    for log in logs:
+        chk.count("sanitizer_reports")
+        chk.violation(f"cpp-matcher{tag}/sanitizer/" + sanitizer_kind(log), {"log": log[:3000]})
+    for (ci, si), verdict in zip(index, verdicts):
+        case = cases[ci]
+        text = case.strings[si]
+        expected = case.expected[si]
+        reference = case.reference16[si] if utf16 else case.reference[si]
+        if verdict is None:
+            chk.count("cpp_cases_unanswered")
+            continue
+        chk.count("cpp_matcher_evaluations" + ctr)
+        if verdict in ("0", "1"):
+            got = verdict == "1"
+            if got != expected and got == reference:
+                # the program is wrong (already reported by the reference
+                # interpreter as program/...); the matcher runs it faithfully
+                chk.count("cpp_matcher_confirms_wrong_program")
+            elif got != expected or got != reference:
+                kind = "accepts-nonmatching" if got else "rejects-matching"
+                chk.violation(
+                    f"cpp-matcher{tag}/{kind}",
+                    witness(case, re_fullmatch=expected, reference_vm=reference,
+                            cpp=got, **text_witness(text)),
+                )
+        elif verdict == "L":
+            chk.count("cpp_step_budget_exceeded")
+            splits = sum(1 for op, _ in case.prog or [] if op == revm_ref.SPLIT)
+            if case.eps_cycle is None and (splits > 8 or utf16):
+                # without a cycle the matcher terminates, possibly after a number
+                # of steps exponential in the number of splits: not judged
+                chk.count("cpp_step_budget_exceeded_not_judged_many_splits")
+                continue
+            suffix = "epsilon-cycle" if case.eps_cycle is not None else "no-epsilon-cycle"
+            chk.violation(
+                f"cpp-matcher/no-verdict-within-step-budget/{suffix}",
+                witness(case, re_fullmatch=expected, epsilon_cycle=case.eps_cycle,
+                        **text_witness(text)),
+            )
+        elif verdict.startswith("X:"):
+            what = re.sub(r"\d+", "N", verdict[2:])[:80]
+            chk.violation(
+                f"cpp-matcher{tag}/exception/{what}",
+                witness(case, re_fullmatch=expected, **text_witness(text)),
+            )
+        elif verdict.startswith("DIED:"):
+            chk.count("cpp_process_died")
+            if verdict == "DIED:timeout":
+                # wall-clock only: never a verdict
+                chk.count("cpp_process_timeouts")
+            elif not logs:
+                chk.violation(
+                    f"cpp-matcher{tag}/process-died",
+                    witness(case, re_fullmatch=expected, how=verdict[5:],
+                            **text_witness(text)),
+                )
+        else:
+            chk.harness_error(f"driver protocol: {verdict!r}")
 
 
 def _first_line(text: str) -> str:
@@ -684,8 +727,11 @@ def run_shard(
     chk = harness.Check("C18", "exploration", RULE, argv)
     rng = chk.rng("strings", shard)
     fit: List[Case] = []
+    # the first round of shards (one per worker) always runs to the end, so that a
+    # slow machine yields fewer observations, never none
+    first_round = shard < WORKERS
     for origin, pattern, feats in items:
-        if time.time() > deadline:
+        if time.time() > deadline and not first_round:
             chk.count("patterns_not_run_wall_budget")
             continue
         case = Case(origin, pattern, set(feats))
@@ -694,7 +740,7 @@ def run_shard(
             if leg1(chk, case, rng, n_strings):
                 fit.append(case)
     cpp_cases = [case for case in fit if case.cpp_fit]
-    if cpp and cpp_cases and time.time() < deadline:
+    if cpp and cpp_cases and (time.time() < deadline or first_round):
         work = env.new_dir(f"c18-shard{shard}")
         try:
             leg2(chk, cpp_cases, work, pathlib.Path(shared), deadline + 600)
@@ -757,7 +803,7 @@ def main(argv) -> int:
     n_generated = chk.pick(330, 7600)
     n_strings = chk.pick(40, 100)
     batch = chk.pick(60, 120)
-    workers = 8
+    workers = WORKERS
 
     rng = chk.rng("patterns")
     items: List[Tuple[str, str, List[str]]] = []
@@ -811,6 +857,10 @@ def main(argv) -> int:
             )
             (shared / "failed").write_text("generation\n", encoding="utf-8")
 
+    # page faults are expensive in this sandbox: keep the forked workers from copying
+    # the whole heap on their first garbage collection
+    gc.collect()
+    gc.freeze()
     with concurrent.futures.ProcessPoolExecutor(max_workers=workers) as pool:
         # all workers are forked by the first submit, i.e. before any thread exists
         futures = [
@@ -860,8 +910,9 @@ def main(argv) -> int:
     chk.assume(
         "UTF-16 programs are compared only where a UTF-16 engine can agree with a code "
         "point engine: no surrogate code points in pattern or text, no astral text for "
-        "patterns with '.' or complemented sets; the C++ leg runs the UTF-32 variant "
-        "(wchar_t is 32 bit here)"
+        "patterns with '.', complemented sets or sets covering U+D800-U+DFFF; the UTF-16 variant is compiled by "
+        "re-defining __WCHAR_MAX__ (wchar_t itself stays 32 bit here and holds one "
+        "code unit each)"
     )
     chk.assume(
         "non-termination of the C++ matcher is judged by a step counter (function "
